@@ -64,6 +64,8 @@ type ownerKey struct {
 // MemStore implements every server-state interface of go-fdo in memory with an effect journal, a fault /
 // scheduling hook in front of every method and a virtual clock for blob expiry.
 type MemStore struct {
+	// OpaqueKeys: OwnerKey / ManufacturerKey hand keys out as opaque crypto.Signer values
+	OpaqueKeys bool
 	mu       sync.Mutex
 	sessions map[string]*session
 	vouchers map[protocol.GUID][]byte
@@ -569,8 +571,15 @@ func (s *MemStore) OwnerKey(ctx context.Context, t protocol.KeyType, bits int) (
 	if !ok {
 		return nil, nil, fdo.ErrNotFound
 	}
+	if s.OpaqueKeys {
+		return OpaqueSigner{k.Key}, k.Chain, nil
+	}
 	return k.Key, k.Chain, nil
 }
+
+// OpaqueSigner hides the concrete key type behind crypto.Signer, the way an HSM-, KMS- or TPM-backed key is handed
+// out: the interface promises nothing more.
+type OpaqueSigner struct{ crypto.Signer }
 
 func (s *MemStore) ManufacturerKey(ctx context.Context, t protocol.KeyType, bits int) (crypto.Signer, []*x509.Certificate, error) {
 	return s.OwnerKey(ctx, t, bits)
